@@ -20,17 +20,24 @@ class Plan:
         return {"lib": self.lib, "class": self.cls.__name__, "args": self.describe_args}
 
 
+
+def _tab(cls, which):
+    """the class's argument table, or an empty one when the class lacks it (what such a class then does is judged where
+    messages are built, not here)"""
+    t = getattr(cls, which, None)
+    return t if isinstance(t, dict) else {}
+
 def params_of(cls):
     sig = inspect.signature(cls.__init__)
     return [p for p in sig.parameters.values() if p.name != "self" and p.kind != p.VAR_KEYWORD]
 
 
 def table_class(cls, name):
-    return cls.mandatory.get(name) or cls.optionals.get(name)
+    return _tab(cls, "mandatory").get(name) or _tab(cls, "optionals").get(name)
 
 
 def required_args(cls):
-    return [p.name for p in params_of(cls) if p.name in cls.mandatory and p.default is None]
+    return [p.name for p in params_of(cls) if p.name in _tab(cls, "mandatory") and p.default is None]
 
 
 def make_plan(g, lib, cls, subset="random", omit=None, extras=0, session_id=None):
@@ -40,7 +47,7 @@ def make_plan(g, lib, cls, subset="random", omit=None, extras=0, session_id=None
     for p in params_of(cls):
         name = p.name
         tcls = table_class(cls, name)
-        is_mand = name in cls.mandatory
+        is_mand = name in _tab(cls, "mandatory")
         if name == omit:
             continue
         if is_mand and p.default is None:
